@@ -186,11 +186,10 @@ def C11(tier):
             for i in range(5)]
     jobs.append(ajob('fresh_node_clean', 'harness/C10_fresh.c', [], unwind=18, timeout=900, cfg=dict(real_tls_types=True), bounds=dict(memory='recycled descriptor pool and malloc chunk with arbitrary previous contents; real node type, byte-level')))
     if tier == 'thorough':
-        # end-to-end: two symbolic keys over all 1024 indices, case-split on the root-level branch of each key (16 sub-queries)
-        for r0 in range(4):
-            for r1 in range(4):
-                jobs.append(ajob('dtor.k2.r%d%d' % (r0, r1), src, ['-DNK=2', '-DNPOOL=9', '-DLEAK=1', '-DGARBAGE=1', '-DR0=%d' % r0, '-DR1=%d' % r1], unwind=18, timeout=14000, mem_gb=6,
-                                 bounds=dict(keys='2 symbolic keys with (k0>>8, k1>>8) = (%d,%d); union over the 16 sub-queries = all pairs of the 1024 indices; all heap nodes released' % (r0, r1))))
+        # end-to-end with one symbolic key over all 1024 indices.  (Two keys, case-split on the root-level branch of each key into 16 sub-queries,
+        # ran out of memory at 6 GB per sub-query after ~40 min each when tried: not in the tier.)
+        jobs.append(ajob('dtor.k1', src, ['-DNK=1', '-DNPOOL=5', '-DLEAK=1', '-DGARBAGE=1'], unwind=18, timeout=7200, mem_gb=16,
+                         bounds=dict(keys='1 symbolic key over all 1024 indices, end to end (set, exit-time destructor walk, teardown); all heap nodes released')))
     return dict(jobs=jobs, assumptions=A_ASSUME + ['compositional argument: leaf step + internal step (recursive call replaced by a recording stub) + top call give the property for every subset of keys by induction on the tree depth; that set() files key k under the digits of k is C10 (tree harness)',
                                                  'tree nodes come from a typed static pool standing for real_malloc; the embedded pre-allocation pool is put into its valid state "exhausted"',
                                                  'mechanical type patches on the preprocessed copy: entries[1] struct hack gets its real extent; the anonymous union {children, entries} becomes a struct (the code never puns between the two views)',
@@ -386,11 +385,11 @@ def C18(tier):
     rce = ['dr_malloc:stub_dr_malloc', 'dr_free:stub_dr_free', 'dr_dag_node_freelist_add_page:stub_add_page', 'dr_get_tsc:stub_tsc', 'dr_free_dag:stub_free_dag']
     progs = [(0, 0, 4), (0, 1, 4)] + ([(2, 0, 7)] if tier == 'thorough' else [])
     for prog, order, nch in progs:
-        for pat in range(2 ** nch):
+        for pat in range(0, 2 ** nch, 2 if prog == 2 else 1):   # prog 2: the root starts on worker 0 (the two workers are interchangeable), 64 assignments
             j = ajob('dr.e2e.p%d.o%d.w%s' % (prog, order, format(pat, '0%db' % nch)), 'harness/C18_e2e.c', ['-DPROG=%d' % prog, '-DORDER=%d' % order, '-DNW=2', '-DWPAT=%d' % pat, '-DNNODES=12'],
                      unwind=6, extra=['--unwindset', 'main.0:13,main.1:4,nd_worker.0:10'], timeout=900, replace_calls=rce,
                      bounds=dict(program=['root{create A{}; wait}', None, 'root{create A{}; wait; create B{}; wait}'][prog], call_order=['child first', 'parent continues while the child runs on another worker'][order],
-                                 workers='2 workers; worker of every task segment = binary digit of %s (all %d assignments are run)' % (format(pat, '0%db' % nch), 2 ** nch),
+                                 workers='2 workers; worker of every task segment = binary digit of %s, first choice = last digit (all %d assignments are run%s)' % (format(pat, '0%db' % nch), 2 ** nch // (2 if prog == 2 else 1), '; the root starts on worker 0, workers being interchangeable' if prog == 2 else ''),
                                  clock='arbitrary non-decreasing readings (increments < 2^40)', options='collapse_max_count, uncollapse_min, collapse_max symbolic; node_count_target = 0'))
             j.group = 'dr.e2e.p%d.o%d' % (prog, order); jobs.append(j)
     return dict(jobs=jobs, assumptions=A_ASSUME + ['inductive argument: leaf step (an interval\'s totals are its own length/kind) + closing step (a section or task gets exactly the serial-sum / max-over-created-children combination of its parts\' totals, whatever the contraction options do) give "totals = totals of the uncontracted sequence" for every well-nested execution by induction on nesting depth; the parts\' own totals are arbitrary (induction hypothesis) subject to t_inf <= t_1',
